@@ -153,10 +153,18 @@ def _r7(ctx):
         return f
     fl = Flow(fn, RF, resolver=lambda name: pkg.resolve("Reaction", name)[1], func_resolver=fres)
     rets = [f for f in fl.facts if f.kind == "return"]
-    if len(rets) != 1 or rets[0].value is None:
-        ctx.unrec("R7", "writer", W, f"expected one return in Reaction.__format__, found {len(rets)}")
+    # one `return verbose` at the end of an if/elif chain, or one `return <text>` per arm (guard clauses, the last path raising): the
+    # value as the decision tree of its paths (a path that raises writes nothing)
+    from ..valueflow import phi_of_paths
+    v = None
+    if rets and all(f.value is not None and not f.loops for f in rets):
+        v = rets[0].value if len(rets) == 1 else phi_of_paths(
+            [(f.value if f.kind == "return" else ("raise", f.value if f.value is not None else ("const", None)), list(f.guards))
+             for f in fl.facts if f.kind in ("return", "raise") and not f.loops])
+    if v is None:
+        ctx.unrec("R7", "writer", W, f"cannot read the value Reaction.__format__ returns as one decision over the format name ({len(rets)} returns)")
         return
-    v = simp(rets[0].value)
+    v = simp(v)
     # the formats somebody reads back: the `format` name of the reaction classes
     readers = {}
     for c in ["Reaction"] + pkg.subclasses("Reaction"):
